@@ -556,4 +556,11 @@ func initReflect(i *interpreter) {
 	i.errorMethods = methodSet{
 		"Error": newMethod(i.reflectPackage, errorType, "Error"),
 	}
+	i.hasherMethods = methodSet{
+		"Write":     newMethod(i.reflectPackage, hasherType, "Write"),
+		"Sum":       newMethod(i.reflectPackage, hasherType, "Sum"),
+		"Reset":     newMethod(i.reflectPackage, hasherType, "Reset"),
+		"Size":      newMethod(i.reflectPackage, hasherType, "Size"),
+		"BlockSize": newMethod(i.reflectPackage, hasherType, "BlockSize"),
+	}
 }
